@@ -206,6 +206,30 @@ func genC20(g *Gen) {
 		sep := []string{"", "."}[r.Intn(2)]
 		g.Add(c20PathIdxCase(name, idxs[r.Intn(len(idxs))], sep, maxIdx, r.Bool()))
 	}
+	// names inside references and on the left of every operator are path segments like any other:
+	// read under EnableNumKeys / EscapePath (model: the C02 evaluation machinery)
+	g.Wrap = "CDyn20"
+	for i := 0; i < g.N/4+4; i++ {
+		nk, esc := r.Bool(), r.P(1, 3)
+		num := []string{"7", "0", "1", "0x0", "03", "12"}[r.Intn(6)]
+		ops := func(n string) string {
+			return []string{"${%s}", "${%s:dflt}", "${%s:+set}", "${%s:?unset}", "x${%s:+y}z"}[r.Intn(5)]
+		}
+		s := c02Setup{NumKeys: nk, Escape: esc, Root: map[string]interface{}{"a": "va"}}
+		if r.Bool() {
+			s.Root[num] = "v" + num
+		}
+		if r.Bool() {
+			s.Root["l"] = []interface{}{"e0", "e1"}
+		}
+		s.Root["out"] = fmt.Sprintf(ops(num), num)
+		s.Root["out2"] = fmt.Sprintf(ops(num), num)
+		if r.Bool() {
+			s.Root["out3"] = fmt.Sprintf(ops(num), "l."+[]string{"0", "1", "0x1", "7"}[r.Intn(4)])
+		}
+		c02Cases(g, s, "numeric-reference-names", fmt.Sprintf("numKeys=%v", nk), fmt.Sprintf("escape=%v", esc))
+	}
+	g.Wrap = ""
 	// struct tags that are integer literals: whether they name a list entry or a setting is
 	// decided by the options of every single Unpack call
 	for i := 0; i < g.N/2; i++ {
@@ -215,6 +239,12 @@ func genC20(g *Gen) {
 		opts := []ucfg.Option{ucfg.EnableNumKeys(numKeys)}
 		if maxIdx != 1024 {
 			opts = append(opts, ucfg.MaxIdx(maxIdx))
+		}
+		// a merge handling of the field's own, or of the call: the options the tag is read under
+		// are derived ones then
+		handling := []string{"", "", ",replace", ",append", ",prepend", ",merge"}[r.Intn(6)]
+		if p := policyOpts[r.Intn(len(policyOpts))]; p.opt != nil && r.P(1, 3) {
+			opts = append(opts, p.opt)
 		}
 		data := map[string]interface{}{}
 		for _, k := range []string{"0", "1", "3", "7", "a", "03"} {
@@ -226,7 +256,7 @@ func genC20(g *Gen) {
 		if err != nil {
 			continue
 		}
-		t := reflect.StructOf([]reflect.StructField{{Name: "F", Type: reflect.TypeOf(""), Tag: reflect.StructTag(fmt.Sprintf(`config:"%s"`, tag))}})
+		t := reflect.StructOf([]reflect.StructField{{Name: "F", Type: reflect.TypeOf(""), Tag: reflect.StructTag(fmt.Sprintf(`config:"%s%s"`, tag, handling))}})
 		target := reflect.New(t)
 		obs, d := "None", "error"
 		var uerr error
